@@ -37,6 +37,18 @@ def judge(v, c, o, stats):
         v.violation("blit:oob-write:%s" % cls, "%s: words behind the window buffer were overwritten (or the buffer length changed)" % geo, {"case": c, "got": o})
         return
     stats[cls + ":" + o["res"]] = stats.get(cls + ":" + o["res"], 0) + 1
+    if o["res"] == "ok":
+        # Blit!OkPermitted: success is allowed only when every copied row lies inside both buffers (TLC's verdict for
+        # the announced image size; the same formula on the length the real decoder produced otherwise)
+        n = o.get("decoded_len", c["w"] * c["h"])
+        if "okp" in c and n == c["w"] * c["h"] and not c.get("ddelta") and c.get("bpp", 32) == 32:
+            permitted = c["okp"]
+        else:
+            cols = c["r"] - c["l"] + 1
+            permitted = c["l"] <= c["r"] and c["t"] <= c["b"] and all((c["t"] + i) * c["Wd"] + c["l"] + cols <= c["Wd"] * c["Hd"] and i * c["w"] + cols <= n for i in range(c["b"] - c["t"] + 1))
+        if not permitted:
+            v.violation("blit:ok-outside-envelope:%s" % cls, "%s: the paint succeeded although a copied row does not lie inside both buffers (decoded image %d pixels): out-of-bounds read or write" % (geo, n), {"case": c, "got": o})
+            return
     if c["inside"] and o["res"] == "ok" and o["decoded_len"] == c["w"] * c["h"] and isinstance(o["decoded"], list):
         dec = o["decoded"]
         exp = {}
@@ -83,7 +95,7 @@ def run(tier, seed):
         extra = []
         sub = [c for c in cases if c["inside"]] + rng.sample(cases, min(len(cases), 4000))
         for c in sub:
-            for dd in (-1, 1, -(c["w"] * c["h"] * 4)):
+            for dd in (-1, 1, -(c["w"] * c["h"] * 4), 4 * c["w"], 8 * c["w"]):
                 d = dict(c); d["ddelta"] = dd; extra.append(d)
             d = dict(c); d["bpp"] = 16; extra.append(d)
         for _ in range(300 if tier == "quick" else 20000):
